@@ -333,7 +333,8 @@ def rule_murmur(ctx):
                     "m 0x5bd1e995, r 24, shifts 13/15, little-endian block, tail bytes 2,1,0 then one multiply); byte access by index, by "
                     "slice and through int.from_bytes is understood (a sign-extended 1..3 byte tail is not Java's)")
     fi = ctx.fn("aiokafka.partitioner.murmur2")
-    body = [s for s in fi.node.body if not (isinstance(s, ast.Expr) and isinstance(s.value, ast.Constant))]
+    from ..rulekit import flatten_const_ifs
+    body = [s for s in flatten_const_ifs(fi.node.body) if not (isinstance(s, ast.Expr) and isinstance(s.value, ast.Constant))]
     loops = [s for s in body if isinstance(s, ast.For)]
     ctx.anchor(len(loops) == 1, "one block loop in murmur2")
     li = body.index(loops[0])
